@@ -263,7 +263,7 @@ class RotateDegrees:
 
     def run(self, xs):
         S = geom.make(self.shape, xs[0], xs[1])
-        before = _flat(geom.describe(S))
+        before = [[p[0], p[1]] for j in S.jordans for p in geom.jordan_vertices(j)]  # in the library's curve order
         if self.level == "shape":
             r = S.rotate(self.angle, degrees=True)
             same = r is S
